@@ -384,6 +384,7 @@ CUSTOM['pane.classes:_make_eq.<locals>.__eq__'] = _eq_instances
 CUSTOM['pane.classes:_make_ord.<locals>._pane_ord'] = _ord_instances
 CUSTOM['pane.classes:_make_hash.<locals>.__hash__'] = _hash_instances
 CUSTOM['pane.classes:_make_init.<locals>.from_dict_unchecked'] = _fdu_instances
+CUSTOM['pane.classes:_make_init.<locals>.from_dict_unchecked.own.bounded'] = _fdu_instances
 
 
 def _mc_instances(m):
